@@ -440,15 +440,19 @@ func (x *Exec) newPeer(name string, j Join) *peer {
 		if q == 0 {
 			q = 64
 		}
-		ser := j.Tr[3:]
-		if strings.HasPrefix(j.Tr, "rs-") {
+		ser := j.Tr[strings.Index(j.Tr, "-")+1:]
+		switch {
+		case strings.HasPrefix(j.Tr, "rs-"):
 			c, r, err := rawsocketPair(ser, q)
 			if err != nil {
 				panic("harness: rawsocket handshake: " + err.Error())
 			}
 			cli, rtr = c, r
-		} else {
-			cli, rtr = websocketPair(ser, q)
+		case strings.HasPrefix(j.Tr, "wsk-"):
+			// websocket with the router side's keep-alive switched on (another send loop)
+			cli, rtr = websocketPair(ser, q, 30*time.Second)
+		default:
+			cli, rtr = websocketPair(ser, q, 0)
 		}
 	}
 	p := &peer{
@@ -694,6 +698,11 @@ func (x *Exec) authMsg(p *peer, in Input) wamp.Message {
 // steps
 
 func payload(tag string) (wamp.List, wamp.Dict) {
+	if strings.HasPrefix(tag, "u") {
+		// a payload no serializer can encode (in-process publishers can hand over anything):
+		// a network peer must drop that message as a whole, and only that message (C15)
+		return wamp.List{tag}, wamp.Dict{"k": tag, "z": complex(1, 2)}
+	}
 	return wamp.List{tag}, wamp.Dict{"k": tag}
 }
 
@@ -1303,7 +1312,8 @@ func tagOf(args wamp.List, kw wamp.Dict) string {
 	if len(args) == 0 && len(kw) == 0 {
 		return ""
 	}
-	if len(args) == 1 && len(kw) == 1 {
+	_, unser := kw["z"].(complex128)
+	if len(args) == 1 && (len(kw) == 1 || (len(kw) == 2 && unser)) {
 		a, ok1 := wamp.AsString(args[0])
 		k, ok2 := wamp.AsString(kw["k"])
 		if ok1 && ok2 && a == k {
